@@ -1204,6 +1204,8 @@ fn builtin_pcap_open(args: Vec<Rc<Object>>) -> Result<Rc<Object>, String> {
             "x" => Ok(Pcap::new(f.clone())),
             _ => Err(String::from("invalid file open mode")),
         },
+        // The file could not be opened. Return the error object as it is
+        Object::Err(_) => return Ok(obj),
         _ => Err(String::from("unsupported argument")),
     }?;
     match res {
